@@ -43,6 +43,18 @@ Engine/Encoding.vos Engine/Encoding.vok Engine/Encoding.required_vos: Engine/Enc
 Engine/EncodingProofs.vo Engine/EncodingProofs.glob Engine/EncodingProofs.v.beautified Engine/EncodingProofs.required_vo: Engine/EncodingProofs.v Engine/Encoding.vo
 Engine/EncodingProofs.vio: Engine/EncodingProofs.v Engine/Encoding.vio
 Engine/EncodingProofs.vos Engine/EncodingProofs.vok Engine/EncodingProofs.required_vos: Engine/EncodingProofs.v Engine/Encoding.vos
+Engine/EndgameModel.vo Engine/EndgameModel.glob Engine/EndgameModel.v.beautified Engine/EndgameModel.required_vo: Engine/EndgameModel.v Base/Geom.vo Chess/Rules.vo Engine/KPK.vo Engine/Magic.vo Gen/Consts.vo Gen/EvalConsts.vo
+Engine/EndgameModel.vio: Engine/EndgameModel.v Base/Geom.vio Chess/Rules.vio Engine/KPK.vio Engine/Magic.vio Gen/Consts.vio Gen/EvalConsts.vio
+Engine/EndgameModel.vos Engine/EndgameModel.vok Engine/EndgameModel.required_vos: Engine/EndgameModel.v Base/Geom.vos Chess/Rules.vos Engine/KPK.vos Engine/Magic.vos Gen/Consts.vos Gen/EvalConsts.vos
+Engine/EndgameProofs.vo Engine/EndgameProofs.glob Engine/EndgameProofs.v.beautified Engine/EndgameProofs.required_vo: Engine/EndgameProofs.v Base/Geom.vo Base/NIter.vo Chess/Rules.vo Engine/KPK.vo Engine/Magic.vo Gen/Consts.vo Gen/EvalConsts.vo Engine/EndgameModel.vo
+Engine/EndgameProofs.vio: Engine/EndgameProofs.v Base/Geom.vio Base/NIter.vio Chess/Rules.vio Engine/KPK.vio Engine/Magic.vio Gen/Consts.vio Gen/EvalConsts.vio Engine/EndgameModel.vio
+Engine/EndgameProofs.vos Engine/EndgameProofs.vok Engine/EndgameProofs.required_vos: Engine/EndgameProofs.v Base/Geom.vos Base/NIter.vos Chess/Rules.vos Engine/KPK.vos Engine/Magic.vos Gen/Consts.vos Gen/EvalConsts.vos Engine/EndgameModel.vos
+Engine/EvalCache.vo Engine/EvalCache.glob Engine/EvalCache.v.beautified Engine/EvalCache.required_vo: Engine/EvalCache.v 
+Engine/EvalCache.vio: Engine/EvalCache.v 
+Engine/EvalCache.vos Engine/EvalCache.vok Engine/EvalCache.required_vos: Engine/EvalCache.v 
+Engine/EvalCacheProofs.vo Engine/EvalCacheProofs.glob Engine/EvalCacheProofs.v.beautified Engine/EvalCacheProofs.required_vo: Engine/EvalCacheProofs.v Engine/EvalCache.vo
+Engine/EvalCacheProofs.vio: Engine/EvalCacheProofs.v Engine/EvalCache.vio
+Engine/EvalCacheProofs.vos Engine/EvalCacheProofs.vok Engine/EvalCacheProofs.required_vos: Engine/EvalCacheProofs.v Engine/EvalCache.vos
 Engine/Game.vo Engine/Game.glob Engine/Game.v.beautified Engine/Game.required_vo: Engine/Game.v 
 Engine/Game.vio: Engine/Game.v 
 Engine/Game.vos Engine/Game.vok Engine/Game.required_vos: Engine/Game.v 
@@ -100,6 +112,9 @@ Gen/BitbaseDump.vos Gen/BitbaseDump.vok Gen/BitbaseDump.required_vos: Gen/Bitbas
 Gen/Consts.vo Gen/Consts.glob Gen/Consts.v.beautified Gen/Consts.required_vo: Gen/Consts.v 
 Gen/Consts.vio: Gen/Consts.v 
 Gen/Consts.vos Gen/Consts.vok Gen/Consts.required_vos: Gen/Consts.v 
+Gen/EvalConsts.vo Gen/EvalConsts.glob Gen/EvalConsts.v.beautified Gen/EvalConsts.required_vo: Gen/EvalConsts.v 
+Gen/EvalConsts.vio: Gen/EvalConsts.v 
+Gen/EvalConsts.vos Gen/EvalConsts.vok Gen/EvalConsts.required_vos: Gen/EvalConsts.v 
 Gen/Layout.vo Gen/Layout.glob Gen/Layout.v.beautified Gen/Layout.required_vo: Gen/Layout.v 
 Gen/Layout.vio: Gen/Layout.v 
 Gen/Layout.vos Gen/Layout.vok Gen/Layout.required_vos: Gen/Layout.v 
@@ -214,6 +229,12 @@ Props/Properties_C11.vos Props/Properties_C11.vok Props/Properties_C11.required_
 Props/Properties_C12.vo Props/Properties_C12.glob Props/Properties_C12.v.beautified Props/Properties_C12.required_vo: Props/Properties_C12.v Engine/KPK.vo Engine/Magic.vo Base/NIter.vo Props/C12Tables.vo Props/C12Defs.vo Props/C12Glue.vo Gen/BitbaseDump.vo
 Props/Properties_C12.vio: Props/Properties_C12.v Engine/KPK.vio Engine/Magic.vio Base/NIter.vio Props/C12Tables.vio Props/C12Defs.vio Props/C12Glue.vio Gen/BitbaseDump.vio
 Props/Properties_C12.vos Props/Properties_C12.vok Props/Properties_C12.required_vos: Props/Properties_C12.v Engine/KPK.vos Engine/Magic.vos Base/NIter.vos Props/C12Tables.vos Props/C12Defs.vos Props/C12Glue.vos Gen/BitbaseDump.vos
+Props/Properties_C13.vo Props/Properties_C13.glob Props/Properties_C13.v.beautified Props/Properties_C13.required_vo: Props/Properties_C13.v Chess/Rules.vo Engine/KPK.vo Engine/EndgameModel.vo Engine/EndgameProofs.vo
+Props/Properties_C13.vio: Props/Properties_C13.v Chess/Rules.vio Engine/KPK.vio Engine/EndgameModel.vio Engine/EndgameProofs.vio
+Props/Properties_C13.vos Props/Properties_C13.vok Props/Properties_C13.required_vos: Props/Properties_C13.v Chess/Rules.vos Engine/KPK.vos Engine/EndgameModel.vos Engine/EndgameProofs.vos
+Props/Properties_C14.vo Props/Properties_C14.glob Props/Properties_C14.v.beautified Props/Properties_C14.required_vo: Props/Properties_C14.v Chess/Rules.vo Gen/Consts.vo Engine/EvalCache.vo Engine/EvalCacheProofs.vo Engine/EndgameModel.vo Engine/EndgameProofs.vo
+Props/Properties_C14.vio: Props/Properties_C14.v Chess/Rules.vio Gen/Consts.vio Engine/EvalCache.vio Engine/EvalCacheProofs.vio Engine/EndgameModel.vio Engine/EndgameProofs.vio
+Props/Properties_C14.vos Props/Properties_C14.vok Props/Properties_C14.required_vos: Props/Properties_C14.v Chess/Rules.vos Gen/Consts.vos Engine/EvalCache.vos Engine/EvalCacheProofs.vos Engine/EndgameModel.vos Engine/EndgameProofs.vos
 Props/Properties_C15.vo Props/Properties_C15.glob Props/Properties_C15.v.beautified Props/Properties_C15.required_vo: Props/Properties_C15.v Chess/Rules.vo Engine/Classify.vo
 Props/Properties_C15.vio: Props/Properties_C15.v Chess/Rules.vio Engine/Classify.vio
 Props/Properties_C15.vos Props/Properties_C15.vok Props/Properties_C15.required_vos: Props/Properties_C15.v Chess/Rules.vos Engine/Classify.vos
